@@ -10,12 +10,12 @@
 package store
 
 import (
+	"bufio"
 	"context"
 	"encoding/json"
 	"errors"
 	"fmt"
 	"os"
-	"bufio"
 	"sort"
 	"strings"
 	"sync"
@@ -623,6 +623,7 @@ type gen struct {
 	img   int
 	c13   bool
 	c25   bool
+	lastS []*op // status reports made so far (re-reported unchanged to exercise the keep-alive path)
 }
 
 func (g *gen) labels() map[string]string {
@@ -793,12 +794,33 @@ func (g *gen) next() *op {
 	return &op{Op: "tick", D: int64(hx.Pick(r, 1, 2, 3, 5))}
 }
 
+// again re-issues an earlier status report unchanged (same value, same TTL)
+func (g *gen) again() *op {
+	if len(g.lastS) == 0 || !g.r.Chance(35) {
+		return nil
+	}
+	o := *g.lastS[g.r.Intn(len(g.lastS))]
+	o.Impl = nil
+	return &o
+}
+
 func (g *gen) setNodeStatus() *op {
+	if o := g.again(); o != nil {
+		return o
+	}
 	n := g.nodeArg(hx.Pick(g.r, nodesU...))
-	return &op{Op: "setNodeStatus", Node: &nodeArg{Name: n.Name, Pod: n.Pod}, TTL: int64(hx.Pick(g.r, -1, 0, 2, 3, 3, 5))}
+	if g.r.Chance(85) {
+		n.Pod = g.npod[n.Name]
+	}
+	o := &op{Op: "setNodeStatus", Node: &nodeArg{Name: n.Name, Pod: n.Pod}, TTL: int64(hx.Pick(g.r, -1, 0, 2, 3, 3, 5))}
+	g.lastS = append(g.lastS, o)
+	return o
 }
 
 func (g *gen) setWlStatus() *op {
+	if o := g.again(); o != nil {
+		return o
+	}
 	id := hx.Pick(g.r, wlsU...)
 	h := g.home[id]
 	if g.r.Chance(8) {
@@ -807,8 +829,10 @@ func (g *gen) setWlStatus() *op {
 	if g.r.Chance(3) {
 		h.app = ""
 	}
-	return &op{Op: "setWorkloadStatus", Name: id, App: h.app, Entry: h.entry, Nodename: h.node,
+	o := &op{Op: "setWorkloadStatus", Name: id, App: h.app, Entry: h.entry, Nodename: h.node,
 		Running: g.r.Chance(60), Healthy: g.r.Chance(50), TTL: int64(hx.Pick(g.r, 0, 0, 2, 3, 3, 5, 10))}
+	g.lastS = append(g.lastS, o)
+	return o
 }
 
 // deployment-shaped traces for C13: markers created with a planned count, workloads added with the
